@@ -97,6 +97,28 @@ def ob_discrete(n):
     return f
 
 
+def ob_multi_concrete():
+    """huge / tiny finite values and numpy scalars through the multi-variables (finite inputs must be mapped into the
+    domain, not rejected with OverflowError)"""
+    def f():
+        dm = M.DiscreteMultiVariable(name="dm", choices=[[1, 2], ["a", "b", "c"]])
+        bv = M.BinaryVariable(name="b", n_vars=2)
+        cm = M.ContinuousMultiVariable(name="cm", lower_bounds=[-1.0, 0.0], upper_bounds=[1.0, 5.0])
+        for vec in ([1e19, -1e300], [1e300, 2.5], (np.float64(1.7), np.int64(-3)), [0.999999, 1e18], [-0.0, 1e-320],
+                    np.array([3.5, -2.0])):
+            for v, decls in ((dm, [("disc", 2), ("disc", 3)]), (bv, [("disc", 2), ("disc", 2)]),
+                             (cm, [("cont", -1.0, 1.0), ("cont", 0.0, 5.0)])):
+                try:
+                    y = v.correct(vec)
+                except Exception as e:
+                    return Failure("multi:finite-input-rejected", variable=v.name, value=repr(vec),
+                                   error=f"{type(e).__name__}: {str(e)[:120]}")
+                if len(y) != 2 or not all(member(c, d) for c, d in zip(y, decls)):
+                    return Failure("multi:concrete-not-member", variable=v.name, value=repr(vec), got=repr(y))
+        return OK
+    return f
+
+
 def ob_discrete_concrete():
     def f():
         v = M.DiscreteVariable(name="d", choices=[10, "b", 3.5])
@@ -346,7 +368,8 @@ def twin():
 def obligations(tier):
     th = tier == "thorough"
     obs = [Ob("continuous", ob_continuous(), 60), Ob("continuous_concrete", ob_continuous_concrete(), 30),
-           Ob("discrete_concrete", ob_discrete_concrete(), 30), Ob("binary_ctor", ob_binary_ctor(), 60)]
+           Ob("discrete_concrete", ob_discrete_concrete(), 30), Ob("binary_ctor", ob_binary_ctor(), 60),
+           Ob("multi_concrete", ob_multi_concrete(), 30)]
     for n in range(1, (6 if th else 4) + 1):
         obs.append(Ob(f"discrete[n={n}]", ob_discrete(n), 120))
     for n in range(1, (5 if th else 4) + 1):
